@@ -1180,18 +1180,19 @@ fn merge(left_struct_array: &StructArray, right_struct_array: &StructArray) -> S
                         if left_list.data_type() == right_list.data_type() {
                             fields.push(left_field.as_ref().clone());
                             columns.push(left_column.clone());
-                        }
-                        // If we have two List<Struct> and they have different sets of fields then
-                        // we can merge them if the offsets arrays are the same.  Otherwise, we
-                        // have to consider it an error.
-                        let merged_sub_array = merge_list_struct(&left_column, &right_column);
+                        } else {
+                            // If we have two List<Struct> and they have different sets of fields then
+                            // we can merge them if the offsets arrays are the same.  Otherwise, we
+                            // have to consider it an error.
+                            let merged_sub_array = merge_list_struct(&left_column, &right_column);
 
-                        fields.push(Field::new(
-                            left_field.name(),
-                            merged_sub_array.data_type().clone(),
-                            left_field.is_nullable(),
-                        ));
-                        columns.push(merged_sub_array);
+                            fields.push(Field::new(
+                                left_field.name(),
+                                merged_sub_array.data_type().clone(),
+                                left_field.is_nullable(),
+                            ));
+                            columns.push(merged_sub_array);
+                        }
                     }
                     // otherwise, just use the field on the left hand side
                     _ => {
